@@ -15,6 +15,7 @@
 # SkoolKit. If not, see <http://www.gnu.org/licenses/>.
 
 from collections import defaultdict
+from copy import copy
 from functools import partial
 import html
 import inspect
@@ -1082,6 +1083,8 @@ def _get_frames(frame_map, specs):
             if frame_id not in frame_map:
                 raise MacroParsingError('No such frame: "{}"'.format(frame_id))
             frame = frame_map[frame_id]
+            if any(frame is f for f in frames):
+                frame = copy(frame)
             frame.delay, frame.x_offset, frame.y_offset = delay, x_offset, y_offset
             if frames and (frame.width > frames[0].width or frame.height > frames[0].height):
                 raise MacroParsingError("Frame '{}' ({}x{}) is larger than the first frame ({}x{})".format(
